@@ -47,7 +47,7 @@ var properties = map[string]*Property{
 		OutsideClaim: []string{"count clause for Retries > R (R=2 quick, 3 thorough): VerifC05AnyRetries covers every Retries value for the other clauses but cuts the all-transient script after 4 (5) attempts",
 			"timeouts shorter than 5s; plugins that ignore cancellation forever (the engine abandons such a call by design)"},
 	},
-	"C01": eProp("C01", []eRun{{"VerifC01Seq", 0, 1, nil}, {"VerifC01PlanGroups", 1, 2, nil}, {"VerifC01BlockGroups", 1, 2, nil}, {"VerifC01Conc", 1, 2, []string{"plan completed", "plan failed"}}},
+	"C01": eProp("C01", []eRun{{"VerifC01Seq", 0, 1, nil}, {"VerifC01PlanGroups", 1, 1, nil}, {"VerifC01BlockGroups", 1, 1, nil}, {"VerifC01Conc", 1, 2, []string{"plan completed", "plan failed"}}},
 		[]string{"shapes beyond: <=2 blocks x <=2 sequences x <=2 actions without check groups; any subset of the five plan-level (resp. block-level) groups on a 1x1x1 plan; 2..3 (4) parallel sequences",
 			"continuous-check actions are exempt from the 'deferred checks come last' clause: block-level continuous checks are drained after the block's deferred checks by design"}),
 	"C02": eProp("C02", []eRun{{"VerifC02Conc", 1, 2, []string{"two sequences in flight"}}, {"VerifC02Seq", 0, 1, nil}},
@@ -55,12 +55,12 @@ var properties = map[string]*Property{
 	"C03": eProp("C03", []eRun{{"VerifC03Conc", 1, 2, []string{"block failed by tolerance", "failures tolerated", "stopped at the exceeding failure"}}, {"VerifC03Seq", 0, 1, []string{"block failed by tolerance", "failures tolerated"}},
 		{"VerifC03CrashSeq", 0, 0, []string{"crash while the plan is durably Running", "block failed by tolerance", "failures tolerated"}}},
 		[]string{"the literal 'never started once exceeded' is asserted through its schedule-robust consequences (failed <= tol+Concurrency; exact stop with Concurrency 1): between a sequence's last plugin exit and the engine's failure count another admitted sequence may legitimately start"}),
-	"C04": eProp("C04", []eRun{{"VerifC04Seq", 0, 1, nil}, {"VerifC04PlanGroups", 1, 2, nil}, {"VerifC04BlockGroups", 1, 2, nil}, {"VerifC04Conc", 1, 2, nil}},
+	"C04": eProp("C04", []eRun{{"VerifC04Seq", 0, 1, nil}, {"VerifC04PlanGroups", 1, 1, nil}, {"VerifC04BlockGroups", 1, 1, nil}, {"VerifC04Conc", 1, 2, nil}},
 		[]string{"the waiter protocol of execute.Plans.runPlan/Wait (checked by C12's harness); that Reason survives storage is C13's obligation", "several plans running concurrently"}),
-	"C06": eProp("C06", []eRun{{"VerifC06PlanGroups", 1, 2, []string{"plan bypassed", "plan bypass failed, plan ran", "plan pre-check failed", "plan initial cont-check failed"}},
-		{"VerifC06BlockGroups", 1, 2, []string{"block bypassed", "block pre-check failed", "block initial cont-check failed"}}, {"VerifC06BothGroups", 0, 1, nil}},
+	"C06": eProp("C06", []eRun{{"VerifC06PlanGroups", 1, 1, []string{"plan bypassed", "plan bypass failed, plan ran", "plan pre-check failed", "plan initial cont-check failed"}},
+		{"VerifC06BlockGroups", 1, 1, []string{"block bypassed", "block pre-check failed", "block initial cont-check failed"}}, {"VerifC06BothGroups", 0, 1, nil}},
 		[]string{"more than one action per check group in the quick tier (two in thorough)"}),
-	"C07": eProp("C07", []eRun{{"VerifC07PlanGroups", 1, 2, []string{"plan cont-check failed", "plan deferred checks ran"}}, {"VerifC07BlockGroups", 1, 2, []string{"block cont-check failed", "block deferred checks ran"}}},
+	"C07": eProp("C07", []eRun{{"VerifC07PlanGroups", 1, 1, []string{"plan cont-check failed", "plan deferred checks ran"}}, {"VerifC07BlockGroups", 1, 1, []string{"block cont-check failed", "block deferred checks ran"}}},
 		[]string{"continuous-check runs beyond the K-th tick of each ticker (K=1 quick, 2 thorough)"}),
 	"C08": eProp("C08", []eRun{{"VerifC08Seq", 0, 1, nil}, {"VerifC08PlanGroups", 1, 1, nil}, {"VerifC08BlockGroups", 1, 1, nil}, {"VerifC08Conc", 1, 2, nil}},
 		[]string{"polling histories are covered through the write log: every write to a block, sequence or sequence action that was durably Completed/Failed keeps that status (given atomic writes); waiter release itself is C12's harness"}),
